@@ -28,6 +28,7 @@
 //! rewind.k        move k's sigrefs to its first parent
 //! mark.k.m        remember the current sigrefs tip of k on this side under the name m (for `refsat=k:m`)
 //! delcanon        delete the canonical (non-namespaced) refs/rad/id
+//! advdup.k.m      (S only) the server lists k's rad/sigrefs a second time, right after its own line, pointing at mark m
 //! revorder        (S only) the server lists references in REVERSE name order in every ls-refs response
 //! ```
 //!
@@ -84,6 +85,8 @@ struct PktReader {
     inner: ChildStdout,
     buf: std::collections::VecDeque<u8>,
     reverse: bool,
+    /// `(full refname, oid)`: listed once more, with this oid, right after the server's own line.
+    extra: Vec<(String, git2::Oid)>,
 }
 
 impl PktReader {
@@ -118,7 +121,7 @@ impl PktReader {
 
 impl io::Read for PktReader {
     fn read(&mut self, out: &mut [u8]) -> io::Result<usize> {
-        if !self.reverse {
+        if !self.reverse && self.extra.is_empty() {
             return self.inner.read(out);
         }
         if self.buf.is_empty() {
@@ -130,7 +133,21 @@ impl io::Read for PktReader {
                     if Self::is_ref_line(&p) {
                         lines.push(p);
                     } else {
-                        lines.reverse();
+                        let mut all = vec![];
+                        for l in lines.drain(..) {
+                            let name = String::from_utf8_lossy(&l[45..]).split([' ', '\n']).next().unwrap_or("").to_string();
+                            all.push(l);
+                            for (n, o) in &self.extra {
+                                if *n == name {
+                                    let body = format!("{o} {n}\n");
+                                    all.push(format!("{:04x}{body}", body.len() + 4).into_bytes());
+                                }
+                            }
+                        }
+                        if self.reverse {
+                            all.reverse();
+                        }
+                        lines = all;
                         lines.push(p);
                         break;
                     }
@@ -157,7 +174,7 @@ struct HeaderSkippingWriter {
 }
 
 impl UploadPack {
-    fn spawn(git_dir: &Path, reverse: bool) -> io::Result<Self> {
+    fn spawn(git_dir: &Path, reverse: bool, extra: Vec<(String, git2::Oid)>) -> io::Result<Self> {
         let mut child = Command::new("git")
             .current_dir(git_dir)
             .env_clear()
@@ -180,7 +197,7 @@ impl UploadPack {
             .spawn()?;
         let stdin = child.stdin.take().unwrap();
         let stdout = child.stdout.take().unwrap();
-        let stdout = PktReader { inner: stdout, buf: Default::default(), reverse };
+        let stdout = PktReader { inner: stdout, buf: Default::default(), reverse, extra };
         Ok(Self { child, stdout, stdin: HeaderSkippingWriter { stdin: Some(stdin), header: Some(Vec::new()) } })
     }
 }
@@ -275,6 +292,8 @@ pub enum Verb {
     DelCanon,
     /// The serving side lists references in reverse name order (a hand-written server may).
     RevOrder,
+    /// The serving side lists `(k, rad/sigrefs)` a second time, pointing at mark `m`.
+    AdvDup(usize, String),
 }
 
 #[derive(Clone, Debug)]
@@ -391,6 +410,7 @@ impl Scenario {
                     ("mark", 4) => Verb::Mark(k(2)?, f[3].to_string()),
                     ("delcanon", 2) => Verb::DelCanon,
                     ("revorder", 2) if side == Side::S => Verb::RevOrder,
+                    ("advdup", 4) if side == Side::S => Verb::AdvDup(k(2)?, f[3].to_string()),
                     _ => return None,
                 };
                 if side == Side::B && ops.iter().any(|(s, _)| *s != Side::B) {
@@ -569,6 +589,7 @@ struct Exec<'a> {
     lab: &'a Lab,
     foreign: git2::Oid,
     marks: HashMap<String, git2::Oid>,
+    dups: Vec<(usize, git2::Oid)>,
 }
 
 impl Exec<'_> {
@@ -680,6 +701,10 @@ impl Exec<'_> {
                 st.raw.find_reference(RAD_ID)?.delete()?;
             }
             Verb::RevOrder => {}
+            Verb::AdvDup(k, m) => {
+                let oid = *self.marks.get(m).ok_or_else(|| format!("unknown mark {m}"))?;
+                self.dups.push((*k, oid));
+            }
         }
         Ok(())
     }
@@ -725,6 +750,8 @@ pub struct World {
     a: BTreeMap<(usize, String), git2::Oid>,
     /// the advertisement is listed in reverse order
     a_rev: bool,
+    /// `(key, oid)`: `rad/sigrefs` of `key` is listed a second time with this oid
+    a_dups: Vec<(usize, git2::Oid)>,
     /// `(key, sigrefs commit)` ↦ what an independent reading of the commit gives (`None` = unloadable).
     blobs: BTreeMap<(usize, usize), Option<BlobInfo>>,
     anc: BTreeMap<(usize, usize), char>,
@@ -758,6 +785,16 @@ impl World {
             })
             .collect();
         v.sort();
+        if std::ptr::eq(db, &self.a) {
+            let sig = self.name_ix(SIGREFS);
+            let mut all = vec![];
+            for e in v {
+                let dup: Vec<_> = self.a_dups.iter().filter(|(k, _)| *k == e.0 && e.1 == sig).map(|(k, o)| (*k, sig, self.show_oid(o))).collect();
+                all.push(e);
+                all.extend(dup);
+            }
+            v = all;
+        }
         if rev {
             v.reverse();
         }
@@ -1016,7 +1053,7 @@ impl Lab {
         copy_dir(&base_path, &s_path)?;
         let info = radicle::git::UserInfo { alias: Alias::new("lab"), key: lab.keys[sc.local] };
         // ---- tamper / evolve both sides -------------------------------------------------------
-        let mut ex = Exec { lab, foreign, marks: HashMap::new() };
+        let mut ex = Exec { lab, foreign, marks: HashMap::new(), dups: vec![] };
         let mut s = SideState { raw: git2::Repository::open(&s_path)?, counter: 1000 };
         for (side, verb) in &sc.ops {
             if *side == Side::B {
@@ -1072,6 +1109,7 @@ impl Lab {
             l: lrefs.clone(),
             a: arefs.clone(),
             a_rev: sc.ops.iter().any(|(_, v)| matches!(v, Verb::RevOrder)),
+            a_dups: ex.dups.clone(),
             blobs: BTreeMap::new(),
             anc: BTreeMap::new(),
         };
@@ -1086,7 +1124,7 @@ impl Lab {
         for o in arefs.values() {
             push_oid(&mut w, *o);
         }
-        for (_, o) in refsat.iter().flatten() {
+        for (_, o) in refsat.iter().flatten().chain(ex.dups.iter()) {
             push_oid(&mut w, *o);
         }
         // candidate sigrefs commits per key
@@ -1099,6 +1137,7 @@ impl Lab {
             }
         }
         cands.extend(refsat.iter().flatten().cloned());
+        cands.extend(ex.dups.iter().cloned());
         let mut blobs: Vec<((usize, git2::Oid), Option<BlobInfo>)> = vec![];
         for (k, o) in cands {
             if !blobs.iter().any(|(x, _)| *x == (k, o)) {
@@ -1127,7 +1166,7 @@ impl Lab {
         for ((k, n), o) in lrefs.iter().chain(arefs.iter()) {
             add(*k, n, *o);
         }
-        for (k, o) in refsat.iter().flatten() {
+        for (k, o) in refsat.iter().flatten().chain(ex.dups.iter()) {
             add(*k, SIGREFS, *o);
         }
         for ((k, _), b) in &blobs {
@@ -1164,7 +1203,8 @@ impl Lab {
         let refs_at: Option<Vec<RefsAt>> =
             refsat.as_ref().map(|v| v.iter().map(|(k, o)| RefsAt { remote: lab.keys[*k], at: (*o).into() }).collect());
         let result = {
-            let conn = UploadPack::spawn(&s_path, w.a_rev)?;
+            let extra = w.a_dups.iter().map(|(k, o)| (ns_ref(&lab.keys[*k], SIGREFS), *o)).collect();
+            let conn = UploadPack::spawn(&s_path, w.a_rev, extra)?;
             let mut handle = Handle::new(lab.keys[sc.local], l_repo, allowed, blocked, conn)?;
             let remote = lab.keys[SERVER];
             let clone = sc.clone;
